@@ -369,7 +369,20 @@ def line_inputs(rng, n, w, c, tier):  # type: ignore[no-untyped-def]
 
 
 # ============================================================================ custom workloads for the pointer macros
-BUF = 10          # usable bytes per buffer in single-macro programs (+1 guard cell that no documented write reaches)
+BUF = 36          # usable bytes per buffer in single-macro programs (+1 guard cell that no documented write reaches);
+#                   long enough for lengths that cross a hex digit (15/16/17, 31/32/33)
+
+
+def buf_offset(rng: random.Random) -> int:
+    return rng.choice([0, 0, 1, rng.randrange(0, BUF)])
+
+
+def buf_length(rng: random.Random, maximum: int) -> int:
+    """a length in [0, maximum], biased to the values around a carry into the next hex digit of the length."""
+    if rng.random() < 0.5:
+        cands = [v for v in (0, 1, 2, 15, 16, 17, 31, 32, 33, maximum) if v <= maximum]
+        return rng.choice(cands)
+    return rng.randrange(0, maximum + 1)
 
 
 def rand_text(rng: random.Random, length: int, forbid: Tuple[int, ...] = (0x00, 0x0A)) -> bytes:
@@ -392,8 +405,8 @@ def count_of(tier: str, quick: int, thorough: int) -> int:
 def c_input_ptr_line(rng: random.Random, app: IOApp, w: int, tier: str) -> List[Case]:
     out = []
     for _ in range(count_of(tier, 250, 2500)):
-        offset = rng.randrange(0, BUF)
-        length = rng.randrange(0, BUF - offset + 1)
+        offset = buf_offset(rng)
+        length = buf_length(rng, BUF - offset)
         line = rand_text(rng, length) + bytes([rng.choice([0x0A, 0x00])])
         out.append(Case(values={'ptr': offset, 'len': rng.getrandbits(w)}, input=bits_of_bytes(line),
                         buffers={'ptr': pack(rand_text(rng, BUF + 1, ()))}))
@@ -403,8 +416,8 @@ def c_input_ptr_line(rng: random.Random, app: IOApp, w: int, tier: str) -> List[
 def c_print_ptr_text(rng: random.Random, app: IOApp, w: int, tier: str) -> List[Case]:
     out = []
     for _ in range(count_of(tier, 250, 2500)):
-        offset = rng.randrange(0, BUF)
-        length = rng.randrange(0, BUF - offset + 1)
+        offset = buf_offset(rng)
+        length = buf_length(rng, BUF - offset)
         content = rand_text(rng, BUF + 1, ()) if rng.random() < 0.7 else bytes(rng.choice([0, 0x0A, 0x41]) for _ in range(BUF + 1))
         out.append(Case(values={'ptr': offset, 'len': length}, buffers={'ptr': pack(content)}))
     return out
@@ -413,8 +426,8 @@ def c_print_ptr_text(rng: random.Random, app: IOApp, w: int, tier: str) -> List[
 def c_print_ptr_line(rng: random.Random, app: IOApp, w: int, tier: str) -> List[Case]:
     out = []
     for _ in range(count_of(tier, 250, 2500)):
-        offset = rng.randrange(0, BUF)
-        length = rng.randrange(0, BUF - offset + 1)
+        offset = buf_offset(rng)
+        length = buf_length(rng, BUF - offset)
         terminator = rng.choice([0x0A, 0x00])
         content = bytearray(rand_text(rng, BUF + 1, ()))
         content[offset:offset + length] = rand_text(rng, length)
@@ -426,8 +439,8 @@ def c_print_ptr_line(rng: random.Random, app: IOApp, w: int, tier: str) -> List[
 def c_fill_bytes(rng: random.Random, app: IOApp, w: int, tier: str) -> List[Case]:
     out = []
     for i in range(count_of(tier, 300, 3000)):
-        offset = rng.randrange(0, BUF)
-        length = rng.randrange(0, BUF - offset + 1)
+        offset = buf_offset(rng)
+        length = buf_length(rng, BUF - offset)
         out.append(Case(values={'ptr': offset, 'count': length, 'value': i % 256}, buffers={'ptr': pack(rand_text(rng, BUF + 1, ()))}))
     return out
 
@@ -435,8 +448,8 @@ def c_fill_bytes(rng: random.Random, app: IOApp, w: int, tier: str) -> List[Case
 def c_copy_bytes(rng: random.Random, app: IOApp, w: int, tier: str) -> List[Case]:
     out = []
     for _ in range(count_of(tier, 250, 2500)):
-        so, do = rng.randrange(0, BUF), rng.randrange(0, BUF)
-        length = rng.randrange(0, BUF - max(so, do) + 1)
+        so, do = buf_offset(rng), buf_offset(rng)
+        length = buf_length(rng, BUF - max(so, do))
         out.append(Case(values={'dst_ptr': do, 'src_ptr': so, 'count': length},
                         buffers={'dst_ptr': pack(rand_text(rng, BUF + 1, ())), 'src_ptr': pack(rand_text(rng, BUF + 1, ()))}))
     return out
